@@ -7,6 +7,7 @@ import (
 	"os"
 	"reflect"
 	"regexp"
+	"sort"
 	"strings"
 	"time"
 
@@ -214,7 +215,11 @@ func runCase(d *Def, c *Case) (res Res) {
 		res.CompNil = out == ""
 		out = strings.TrimSuffix(out, "\n")
 		if out != "" {
-			res.Comps = ToksOf(strings.Split(out, "\n"))
+			lines := strings.Split(out, "\n")
+			res.Comps = ToksOf(lines)
+			res.Sorted = sort.StringsAreSorted(lines)
+		} else {
+			res.Sorted = true
 		}
 		res.RestNil = rest == nil
 		res.Rest = ToksOf(rest)
